@@ -93,6 +93,33 @@ def q(s):
     return json.dumps(s)
 
 
+# typed YAML literals of a set_vars value: ('list', n) ('map', n) ('none',) ('num', n) ('bool', b) ('str', s)
+def lit_yaml(l):
+    k = l[0]
+    if k == 'list':
+        return "[" + ", ".join("e%d" % i for i in range(l[1])) + "]"
+    if k == 'map':
+        return "{" + ", ".join("k%d: v" % i for i in range(l[1])) + "}"
+    if k == 'none':
+        return "~"
+    if k == 'num':
+        return str(l[1])
+    if k == 'bool':
+        return "true" if l[1] else "false"
+    return q(l[1])
+
+
+def lit_sx(l):
+    k = l[0]
+    if k in ('list', 'map', 'num'):
+        return [k, l[1]]
+    if k == 'none':
+        return 'none'
+    if k == 'bool':
+        return ['bool', bool(l[1])]
+    return ['str', hx(l[1])]
+
+
 def task_yaml(t, root):
     m = t["mod"]
     L = []
@@ -103,6 +130,8 @@ def task_yaml(t, root):
         L += ["- debug:", "    var: " + q(path_s(m[1]))]
     elif k == 'setvars':
         L += ["- set_vars:"] + ["    %s: %s" % (kk, q(tpl_j(v))) for kk, v in m[1]]
+    elif k == 'setlit':
+        L += ["- set_vars:", "    %s: %s" % (m[1], lit_yaml(m[2]))]
     elif k == 'assert':
         L += ["- assert:", "    that:"] + ["      - " + q(expr_j(e)) for e in m[1]]
     elif k == 'command':
@@ -149,6 +178,8 @@ def task_sx(t):
         ms = ['debugvar'] + [hx(x) for x in m[1]]
     elif k == 'setvars':
         ms = ['setvars'] + [[hx(kk), tpl_sx(v)] for kk, v in m[1]]
+    elif k == 'setlit':
+        ms = ['setlit', hx(m[1]), lit_sx(m[2])]
     elif k == 'assert':
         ms = ['assert'] + [expr_sx(e) for e in m[1]]
     elif k == 'command':
@@ -174,6 +205,17 @@ INVALID_TEXT = {
     "no_module": "- name: nothing\n  when: true\n",
     "two_modules": "- debug:\n    msg: never\n  command: \"true\"\n",
     "non_mapping": "- just a string\n",
+    # keys that are not strings, and names of internal fields of the Task struct (K27)
+    "int_key": "- debug:\n    msg: never\n  7: x\n",
+    "bool_key": "- debug:\n    msg: never\n  true: x\n",
+    "null_key": "- debug:\n    msg: never\n  ~: x\n",
+    "float_key": "- debug:\n    msg: never\n  1.5: x\n",
+    "seq_key": "- debug:\n    msg: never\n  ? [a, b]\n  : x\n",
+    "internal_module": "- debug:\n    msg: never\n  module: z\n",
+    "internal_params": "- debug:\n    msg: never\n  params: y\n",
+    "internal_global_params": "- debug:\n    msg: never\n  global_params: x\n",
+    "sequence_task": "- [debug, x]\n",
+    "null_task": "- ~\n",
 }
 
 
@@ -228,6 +270,14 @@ def run_one_impl(root, c, timeout):
     for name, f in c["files"].items():
         p = os.path.join(root, name)
         os.makedirs(os.path.dirname(p), exist_ok=True)
+        if f.get("symlink"):
+            # the script is reached through a symbolic link: its text lives elsewhere, its identity is the link's path
+            real = os.path.join(root, "real", name.replace("/", "__"))
+            os.makedirs(os.path.dirname(real), exist_ok=True)
+            with open(real, "w") as fh:
+                fh.write(file_text(f, root))
+            os.symlink(real, p)
+            continue
         with open(p, "w") as fh:
             fh.write(file_text(f, root))
     os.chmod(root, 0o755)
